@@ -5,6 +5,7 @@
 # Writes /tmp/mut/confirm/<prop>-<k>.json and removes the worktree.
 set -u
 prop=$1; k=$2
+[ "$prop" = C17 ] && export BTREES_VERIF=1
 src=/tmp/mut/out/$prop/$k
 patch=$src/patch.diff
 [ -f $src/patch.rebased.diff ] && patch=$src/patch.rebased.diff
